@@ -1686,7 +1686,7 @@ func (g *Gen) itemGenericFamily() {
 func stressProgram(r *common.Rng) (string, string) {
 	var sb strings.Builder
 	sb.WriteString("package main\n\nimport frt\nimport slice\n\n")
-	kind := r.Intn(17)
+	kind := r.Intn(18)
 	d := []int{3, 6, 10, 16, 24, 40}[r.Intn(6)]
 	name := ""
 	switch kind {
@@ -1802,6 +1802,13 @@ func stressProgram(r *common.Rng) (string, string) {
 			sb.WriteString([]string{"CachedS (", "FreshS (", "StaleS ("}[i%3])
 		}
 		sb.WriteString("x" + strings.Repeat(")", d) + "\n")
+	case 17: // a tree of generic record instances: every level instantiates the level below at two different arguments
+		name = "generic-instance-tree"
+		d = map[int]int{3: 3, 6: 5, 10: 7, 16: 9, 24: 10, 40: 11}[d] // 2^k instances are registered eagerly: 20+ levels are out of reach (known finding, replayed from the corpus)
+		sb.WriteString("type GI0<T> = {v: T}\n")
+		for i := 1; i <= d; i++ {
+			fmt.Fprintf(&sb, "type GI%d<T> = {x: GI%d<[]T>; y: GI%d<T*int>}\n", i, i-1, i-1)
+		}
 	case 16: // literals of a generic record nested in an expression
 		name = "nested-record-literals"
 		sb.WriteString("type BoxS<T> = {ValS: T}\n\nlet wrapR x =\n  " + strings.Repeat("{ValS=", d) + "x" + strings.Repeat("}", d) + "\n")
